@@ -250,7 +250,14 @@ func c11GenPlugin(r *simrt.Rand, idx int, limit time.Duration, backendFiles []st
 		p.Kind = "exit"
 		healthyBody()
 		sc["exit"] = 1 + r.Intn(255)
-		switch r.Intn(4) {
+		switch r.Intn(5) {
+		case 4:
+			// not an exit of its own: somebody else kills the process (the OOM killer of a crowded build
+			// container) before it reads, after it read, or after it answered; sometimes only the first time
+			p.Kind = "died"
+			delete(sc, "exit")
+			sc["die_by_signal"] = []string{"before", "mid", "after"}[r.Intn(3)]
+			sc["die_once"] = r.Chance(1, 2)
 		case 0:
 			sc["read_stdin"] = 0
 			sc["decode"] = false
@@ -380,6 +387,31 @@ func c11Judge(c *c11Case, wr *worldRun) *c11Verdict {
 	}
 
 	// ---- clause 1: request fidelity ----
+	// one tap per Execute call; a call may start its executable more than once (a retry): consecutive
+	// executions of one path share the call's tap while there are more executions than calls, and every
+	// one of them must be sent the whole request
+	if len(res.Procs) > len(taps) && len(taps) > 0 {
+		surplus := len(res.Procs) - len(taps)
+		var ext []string
+		t := 0
+		for i, pr := range res.Procs {
+			if i > 0 && surplus > 0 && pr.Path == res.Procs[i-1].Path && t > 0 {
+				ext = append(ext, taps[t-1])
+				surplus--
+				continue
+			}
+			if t >= len(taps) {
+				ext = nil
+				break
+			}
+			ext = append(ext, taps[t])
+			t++
+		}
+		if len(ext) == len(res.Procs) {
+			taps = ext
+			v.Trivia["executions-beyond-calls"]++
+		}
+	}
 	if len(taps) == len(res.Procs) {
 		for i, pr := range res.Procs {
 			pl := byPath[pr.Path]
